@@ -238,6 +238,11 @@ def point_sets(tier, rng):
     out.append(("nearly-flat", flat))
     out.append(("far-from-origin", rng.random((n, 3)) + [1e4, -1e4, 5e3]))
     out.append(("tiny", rng.random((n, 3)) * 1e-3))
+    # millimetre parts expressed in metres and smaller: hull facets with areas far below 1e-8
+    out.append(("tiny-3e-4", rng.random((n, 3)) * 3e-4))
+    out.append(("tiny-1e-4", rng.random((n, 3)) * 1e-4 + [0.5, 0.5, 0.5]))
+    corners = rnp.array(list(itertools.product([0.0, 1.0], repeat=3)))
+    out.append(("unit-cube+tight-cluster", rnp.vstack([corners, [1.2, 1.2, 1.2] + rng.random((12, 3)) * 1e-4])))
     out.append(("huge", rng.random((n, 3)) * 1e3))
     out.append(("elongated-sparse", rng.random((12, 3)) * [5.0, 1.0, 0.3]))
     out.append(("cospherical", _unit(rng.normal(size=(30, 3))) * 2.0 + [1.0, 1.0, 1.0]))
@@ -319,6 +324,48 @@ def hulls_and_bounds(tier, seed):
             except Exception as ex:  # noqa: BLE001
                 fail("hull:raised %s" % type(ex).__name__, sname, ex)
                 hull = None
+            # ---------------- the hull after a transform, with the hull read BEFORE it
+            if hull is not None:
+                import trimesh.transformations as tf_
+
+                for tname, M in (("rigid", tf_.rotation_matrix(0.8, [1, 2, 3], [0.1, 0.2, 0.3])), ("mirror", rnp.diag([-1.0, 1.0, 1.0, 1.0])), ("point-reflection", rnp.diag([-1.0, -1.0, -1.0, 1.0])), ("scale", rnp.diag([2.0, 2.0, 2.0, 1.0]))):
+                    # the hull of the transformed points, computed from scratch
+                    cases += 1
+                    V2 = tf_.transform_points(P, M)
+                    vol2 = hull.volume * abs(rnp.linalg.det(M[:3, :3]))
+
+                    def hull_problem(h2):
+                        if not h2.is_watertight or not h2.is_winding_consistent or h2.volume <= 0:
+                            return "not-an-outward-wound-closed-surface"
+                        if abs(h2.volume - vol2) > 1e-6 * max(abs(vol2), 1e-30):
+                            return "volume-differs-from-the-transformed-hull"
+                        d2 = ((V2[:, None, :] - h2.triangles[None, :, 0, :]) * h2.face_normals[None, :, :]).sum(axis=2)
+                        if float(d2.max()) > tolr * 20 * max(1.0, float(rnp.abs(M[:3, :3]).max())):
+                            return "point-outside"
+                        return None
+
+                    try:
+                        why = hull_problem(trimesh.convex.convex_hull(V2))
+                    except Exception as ex:  # noqa: BLE001
+                        why = "raised %s" % type(ex).__name__
+                    if why:
+                        # (the point set is part of the cell name: a finding recorded for one set
+                        # does not hide the same failure on another)
+                        fail("hull-of-transformed-points[%s;%s]:%s" % (sname, tname, why), sname)
+                        continue
+                    # the same with the hull (or something built on it) read BEFORE the transform
+                    for oname_, mk_ in (("PointCloud", lambda: trimesh.PointCloud(P.copy())), ("Trimesh", lambda: hull.copy())):
+                        for pre in ("convex_hull", "bounding_box_oriented"):
+                            cases += 1
+                            try:
+                                g_ = mk_()
+                                getattr(g_, pre)
+                                g_.apply_transform(M)
+                                why = hull_problem(g_.convex_hull)
+                                if why:
+                                    fail("%s:hull-after-%s[read %s first]:%s" % (oname_, tname, pre, why), sname)
+                            except Exception as ex:  # noqa: BLE001
+                                fail("%s:hull-after-%s raised %s" % (oname_, tname, type(ex).__name__), sname, ex)
             objs = [("PointCloud", trimesh.PointCloud(P))]
             if hull is not None:
                 objs.append(("Trimesh", hull))
@@ -417,7 +464,7 @@ def hulls_and_bounds(tier, seed):
     except Exception as ex:  # noqa: BLE001
         fail("minimum_nsphere:axis-flat-points raised %s" % type(ex).__name__, "axis-aligned-segment", ex)
     fails = sorted(cells.values(), key=lambda c: c["cell"])
-    r = common.result(cases, cases, fails, "11 point sets x (hull, AABB, 3 OBB variants, OBB primitive, sphere, cylinder) for point cloud and hull mesh + 2-D variants", exhaustive=True)
+    r = common.result(cases, cases, fails, "14 point sets x (hull, hull after 4 transforms with 3 earlier reads, AABB, 3 OBB variants, OBB primitive, sphere, cylinder) for point cloud and hull mesh + 2-D variants", exhaustive=True)
     r["failures"] = fails
     return r
 
